@@ -267,6 +267,7 @@ func gen(r *hx.Run) []json.RawMessage {
 	wTyped := r.CfgInt("wtyped", 0)
 	wBackup := r.CfgInt("wbackup", 0)
 	var prog []json.RawMessage
+	lastDel := [2]int{-1, -1}
 	for i := 0; i < nops; i++ {
 		var p op
 		p.C = o.Choose(clients, "client")
@@ -312,6 +313,24 @@ func gen(r *hx.Run) []json.RawMessage {
 				a, b = -1, -1
 			} else if a > b {
 				a, b = b, a
+			}
+			// ranges that share one bound with the previous delete (successive tombstones with a common
+			// min or max are a corner of the tombstone batching code)
+			if a >= 0 && lastDel[0] >= 0 && o.Bool(1, 2, "sharebound") {
+				if o.Bool(1, 2, "sharemax") {
+					b = lastDel[1]
+					if a > b {
+						a = b
+					}
+				} else {
+					a = lastDel[0]
+					if b < a {
+						b = a
+					}
+				}
+			}
+			if a >= 0 {
+				lastDel = [2]int{a, b}
 			}
 			p.Min, p.Max = a, b
 		case 3:
